@@ -17,6 +17,7 @@ import DosModel.Proofs.Abi
 import DosModel.Proofs.AbiLayout
 import DosModel.Proofs.AbiDecode
 import DosModel.Proofs.AbiFacts
+import DosModel.Proofs.Nonce
 import DosModel.Props.C19
 
 namespace Dos.Props.C19Abi
@@ -266,6 +267,36 @@ theorem envelope_fields (m : Method) (cfg : Config) (ep : EndpointView) :
 
 example : envelope CallData.commit ⟨5000000, 0, 56⟩ ⟨7, 2000000000⟩
     = { toProxy := false, value := 0, nonce := 7, gas := 5000000, price := 2000000000, chainId := 56 } := by decide
+
+/-- **nonces across the queue.** The adaptor never chooses a nonce: each send asks the contacted endpoint for its
+pending count.  With an endpoint that counts an accepted transaction as pending (and nothing else), for ANY history
+of calls on one adaptor — refused sends, failover, cancelled endpoints in between — the nonces of the transactions
+endpoint `i` accepted are consecutive from the count it reported first: none reused, none skipped. -/
+theorem accepted_nonces_consecutive (cfg : Config) (hist : List (Method × List Outcome)) (dead : List Nat)
+    (views : List EndpointView) (i : Nat) (v : EndpointView) (hv : views[i]? = some v) :
+    ∃ k, acceptedNonces cfg dead views hist i = List.range' v.pendingNonce k :=
+  acceptedNonces_consecutive cfg hist dead views i v hv
+
+example : acceptedNonces ⟨5000000, 1, 1⟩ [] [⟨7, 1⟩, ⟨8, 1⟩]
+    [(CallData.registerNewNode, [.revert, .accept]), (CallData.registerNewNode, [.accept, .accept]),
+     (CallData.reveal, [.otherErr, .accept]), (CallData.commit, [.accept, .accept])] 0 = [7, 8] ∧
+  acceptedNonces ⟨5000000, 1, 1⟩ [] [⟨7, 1⟩, ⟨8, 1⟩]
+    [(CallData.registerNewNode, [.revert, .accept]), (CallData.registerNewNode, [.accept, .accept]),
+     (CallData.reveal, [.otherErr, .accept]), (CallData.commit, [.accept, .accept])] 1 = [8] := by decide
+
+/-- the transaction an endpoint accepted is one the loop sent to it, and a send that is refused (or not made)
+leaves that endpoint's pending count where it was -/
+theorem nonce_moves_only_when_accepted (r : CallResult) (os : List Outcome) (views : List EndpointView) (i : Nat) :
+    (acceptedBy r os = some i → i ∈ r.contacted ∧ os[i]? = some Outcome.accept) ∧
+    (∀ j, acceptedBy r os = some j → j ≠ i → (bumpNonce views j)[i]? = views[i]?) := by
+  refine ⟨acceptedBy_contacted, ?_⟩
+  intro j _ hji
+  exact bumpNonce_other views i j (Ne.symm hji)
+
+example : (sendSeq ⟨800000, 0, 56⟩ [] [⟨7, 100⟩, ⟨9, 200⟩]
+    [(CallData.registerNewNode, [.nonceErr, .accept]), (CallData.registerNewNode, [.accept, .accept])]).map
+      (fun p => p.2.map (fun t => (t.1, t.2.nonce, t.2.price)))
+    = [[(0, 7, 100), (1, 9, 200)], [(1, 10, 200)]] := by decide
 
 /-- `Connect` (regenerated): the session options are built from the key and the configured chain id, get the gas
 limit, optionally the gas price and a context — and nothing else: no statement sets a nonce, a value or fee caps
